@@ -27,13 +27,14 @@ func runNLRace(col *trace.Collector, seed int64, rounds int) (hooks []verifhook.
 	defer n.Stop()
 	vn := n.N.VerifName()
 	raceFrom := -1 // collector index at which the rounds begin; everything before (the two establishments) is kept
+	raceEnd := -1  // ... and everything after the rounds again (the replay of an old notice)
 	defer func() {
 		keep := map[string]bool{"ru_apply": true, "ru_dupnotice": true, "conn_del": true, "known_del": true, "sess_end": true, "shutdown": true}
 		for i, r := range col.Since(h0) {
 			if r["n"] != vn {
 				continue
 			}
-			if ev, _ := r["ev"].(string); raceFrom < 0 || h0+i < raceFrom || keep[ev] {
+			if ev, _ := r["ev"].(string); raceFrom < 0 || h0+i < raceFrom || (raceEnd >= 0 && h0+i >= raceEnd) || keep[ev] {
 				hooks = append(hooks, r)
 			}
 		}
@@ -61,6 +62,15 @@ func runNLRace(col *trace.Collector, seed int64, rounds int) (hooks []verifhook.
 		if w := nlBarrier(col, vn, p, 20*time.Second); w != "" {
 			return nil, nil, "race node: barrier after the handshake: " + w, 0
 		}
+	}
+	// a duplicate-node notice is handled once before the rounds; thousands of distinct updates later the very same
+	// message comes again: the id is still in the seen table (expiry 1 h), so it is neither adopted nor relayed again
+	notice := peer.RoutingUpdate{NodeID: "ox", UpdateID: fmt.Sprintf("race-notice-%d", seed), UpdateEpoch: 5, UpdateSequence: 10, SuspectedDuplicate: 9,
+		Connections: map[string]float64{}, ForwardingNode: ps[0].ID}
+	_ = ps[0].SendRoute(peer.RoutingUpdate{NodeID: "ox", UpdateID: fmt.Sprintf("race-ox-%d", seed), UpdateEpoch: 9, UpdateSequence: 3, Connections: map[string]float64{"q": 1}, ForwardingNode: ps[0].ID})
+	_ = ps[0].SendRoute(notice)
+	if w := nlBarrier(col, vn, ps[0], 20*time.Second); w != "" {
+		return nil, nil, "race node: barrier after the notice: " + w, 0
 	}
 	const burst = 8
 	raceFrom = col.Len()
@@ -139,6 +149,24 @@ func runNLRace(col *trace.Collector, seed int64, rounds int) (hooks []verifhook.
 				return nil, viol, "", r
 			}
 		}
+	}
+
+	raceEnd = col.Len()
+	_ = ps[0].SendRoute(notice)
+	if w := nlBarrier(col, vn, ps[0], 20*time.Second); w != "" {
+		return nil, viol, "race node: barrier after the replayed notice: " + w, rounds
+	}
+	time.Sleep(50 * time.Millisecond)
+	relayed := 0
+	for _, f := range ps[1].Frames() {
+		if f.RU != nil && f.RU.UpdateID == notice.UpdateID {
+			relayed++
+		}
+	}
+	if relayed != 1 {
+		viol = append(viol, Violation{"C06:notice-relayed-again-after-many-updates",
+			fmt.Sprintf("a duplicate-node notice handled before %d distinct updates was delivered again afterwards: the other neighbour received it %d times (once expected)", rounds*2*burst, relayed),
+			map[string]any{"rounds": rounds}})
 	}
 
 	return nil, viol, "", rounds
